@@ -284,3 +284,11 @@ Section ConcreteFlags.
     destruct (unknown_receivers_not_shielded _ T S) as [-> _]. reflexivity.
   Qed.
 End ConcreteFlags.
+
+(** well-formed Base58Check strings whose payload is shorter than the two version bytes are not addresses:
+    the concrete decoder refuses them (the Rust parser must answer NotZcash, not index out of bounds) *)
+Lemma short_base58_rejected :
+  c_dec H0 G0 (n2z (str "3QJmnh"%string)) = None /\ c_dec H0 G0 (n2z (str "4CyUtqx"%string)) = None /\
+  c_dec H0 G0 (n2z (str "1Wh4bh"%string)) = None /\
+  M10.b58check_decode (str "3QJmnh"%string) = Some [] /\ M10.b58check_decode (str "4CyUtqx"%string) = Some [28%N].
+Proof. vm_compute. repeat split. Qed.
